@@ -33,6 +33,7 @@ class Oracle:
         self.inside = Counter()
         self.bound = {}      # get token -> item (expected binding)
         self.unres = []      # storep: oracle's service order of unreserved items
+        self.order = []      # storeb: items in the order in which they became available
         self.viol = []
         self.prev = None
         self.now = 0
@@ -76,7 +77,7 @@ class Oracle:
                     self.unres.remove(exp)
             else:
                 taken = set(self.bound.values())
-                un = [x for x in ids(row["ready"]) if x not in taken]
+                un = [x for x in self.order if x not in taken]
                 exp = (un[-1] if self.lifo else un[0]) if un else None
             if exp is None:
                 self.v("C02", i, "get token %d granted with no unreserved item available" % t)
@@ -95,7 +96,7 @@ class Oracle:
         if k in ("RPUT", "RGET"):
             if res.startswith("tok:"):
                 t = int(res[4:])
-                prio = op[2] if (self.kind in ("prio", "filter", "fleet")) else 0
+                prio = op[2] if (self.kind in ("prio", "filter", "fleet", "slot")) else 0
                 self.tok[t] = dict(side="put" if k == "RPUT" else "get", pid=op[1], prio=prio, status="pending",
                                    flt=(op[3], op[4]) if (k == "RGET" and len(op) > 4) else (1, 0))
             else:
@@ -151,6 +152,13 @@ class Oracle:
                 self.v("C07", i, "ill-formed %s changed the store" % k)
             if row["trig"]:
                 self.v("C07", i, "ill-formed %s triggered tokens %s" % (k, row["trig"]))
+        if not self.p:
+            # availability order: first appearance in ready_items; retrieved items leave
+            now_ready = ids(row["ready"])
+            for x in now_ready:
+                if x not in self.order:
+                    self.order.append(x)
+            self.order = [x for x in self.order if x in now_ready]
         # grants, in trigger order
         for t in ids(row["trig"]):
             self.grant(i, t, row, before_items)
@@ -172,7 +180,7 @@ class Oracle:
             if len(set(b)) != len(b):
                 self.v("C02", i, "two granted get reservations bound to one item: %s" % self.bound)
         # C04 is a statement about the end of an API call / internal event
-        if pput and n_inside + len(gput) < self.cap and self.kind != "belt":
+        if pput and n_inside + len(gput) < self.cap and self.kind not in ("belt", "slot"):
             self.v("C04", i, "put request(s) %s pending with %d free unit(s)" % (pput, self.cap - n_inside - len(gput)))
         if pget and len(gget) < len(self.avail(row)):
             if self.kind != "filter":
